@@ -30,10 +30,22 @@ def other(ax):
 
 # ----------------------------------------------------------------------------- observation
 def snap(t):
+    try:
+        return _snap(t)
+    except Exception as e:  # a table so broken that it cannot be read is still an observation
+        return {"obs": [], "samp": [], "rows": [], "omd": None, "smd": None,
+                "type": "!!unreadable-table(%s)" % type(e).__name__}
+
+
+def _snap(t):
     o = core.table_obs(t)
     s = {k: o[k] for k in ("obs", "samp", "rows", "omd", "smd", "type")}
     ok = True
     for ax in AXES:
+        if len(set(s[KEY[ax]])) != len(s[KEY[ax]]):
+            # duplicated IDs: not a table of the property's domain (errcheck lets them through on an empty
+            # table because 'empty' masks the other tests, finding F-C05-1); lookups cannot be consistent
+            continue
         for pos, i in enumerate(t.ids(axis=ax)):
             try:
                 if t.index(i, ax) != pos or not t.exists(i, axis=ax):
@@ -159,6 +171,7 @@ class World:
         self.problems = []
         self.stats = {}
         self.md_value_shared = 0
+        self.out_of_domain = False
 
     def count(self, k):
         self.stats[k] = self.stats.get(k, 0) + 1
@@ -224,6 +237,8 @@ class World:
                 self.live.append(r)
                 res_idx.append(len(self.live) - 1)
         after = [snap(t) for t in self.live]
+        if any(len(set(a[k])) != len(a[k]) for a in after for k in ("obs", "samp")):
+            self.out_of_domain = True
         rec = {"name": name, "args": args, "raised": bool(raised), "inplace": bool(inplace), "recv": recv,
                "results": res_idx, "result_contents": [after[i] for i in res_idx], "ref": ref, "after": after,
                "ext": self.ext_snaps(), "ext_id_idx": list(self.ext_id_idx), "facts": self.facts(old_indptr), "poke": 0}
@@ -317,8 +332,11 @@ class World:
         ref = None
         if inplace:
             # the non-in-place variant on an equal table
-            eq = build_equal(t)
-            if snap(eq) != cur:
+            try:
+                eq = build_equal(t)
+            except Exception:
+                eq = None
+            if eq is None or snap(eq) != cur:
                 # the receiver's state cannot be built by the constructor; the receiver itself is the equal table
                 eq = t
                 self.count("twin-on-receiver-itself")
@@ -728,7 +746,7 @@ def random_history(rng, quick, holes=False):
     n_calls = rng.randint(1, 4)
     done = 0
     guard = 0
-    while done < n_calls and len(W.live) < MAX_LIVE and guard < 12:
+    while done < n_calls and len(W.live) < MAX_LIVE and guard < 12 and not W.out_of_domain:
         guard += 1
         recv = rng.randrange(len(W.live)) if rng.random() < 0.6 else len(W.live) - 1
         if rng.random() < 0.3:
@@ -841,6 +859,8 @@ def check(ctx, W, case, tags=()):
         ctx.count("history-with-metadata-VALUE-objects-shared(not modelled, never written by the API)")
     for k, v in W.stats.items():
         ctx.count(k, v)
+    if W.out_of_domain:
+        ctx.count("history-ended:table-with-duplicated-IDs(empty table, F-C05-1 masking)")
     for pr in W.problems:
         ctx.fail(case, "harness.sanity", list(tags) + [pr])
     req = {"calls": [{k: v for k, v in c.items() if k != "error"} for c in calls]}
@@ -873,6 +893,25 @@ def check(ctx, W, case, tags=()):
 def fixed_histories():
     """(name, function(World, rng)) — deterministic scenarios that run first"""
     out = []
+
+    def empty_md_tuple(W, rng):
+        # repaired defect (1a4b21f8): a metadata tuple whose entries are all empty (or the empty tuple of an
+        # axis that lost all its IDs) was kept by in-place filter / add_metadata, while copy() made it None,
+        # so transform(inplace=True) and transform(inplace=False) returned unequal tables
+        spec = {"obs": ["o"], "samp": ["s1", "s2"], "rows": [[7.0, 5.0]], "omd": None,
+                "smd": [{"a": "1"}, {}], "type": None}
+        W.construct(spec, "dense", None, None)
+        api_call(W, "filter", 0, {"axis": "sample", "mode": "ids", "ids": ["s2"], "inplace": True}, rng)
+        api_call(W, "transform", 0, {"axis": "sample", "fn": "x2", "inplace": True}, rng)
+        api_call(W, "update_ids", 0, {"axis": "sample", "map": {"s2": "t2"}, "strict": True, "inplace": True}, rng)
+        W.construct(dict(spec, smd=[{"a": "1"}, {"a": "2"}]), "csr", None, None)
+        api_call(W, "filter", 1, {"axis": "sample", "mode": "ids", "ids": [], "inplace": True}, rng)
+        api_call(W, "pa", 1, {"inplace": True}, rng)
+        api_call(W, "remove_empty", 1, {"axis": "whole", "inplace": True}, rng)
+        W.construct(dict(spec, smd=None), "csc", None, None)
+        W.call("add_metadata", 2, {"axis": "sample", "md": {"s1": {}}})
+        api_call(W, "norm", 2, {"axis": "sample", "inplace": True}, rng)
+    out.append(("all-empty-metadata-tuple", empty_md_tuple))
 
     def shared_arrays(W, rng):
         # two tables built from the same caller-held ID arrays; views handed on by transpose / sort_order /
@@ -931,14 +970,6 @@ def fixed_histories():
         api_call(W, "rankdata", 0, {"axis": "sample", "inplace": True}, rng)
     out.append(("stored-zeros-in-caller-matrix", stored_zeros))
 
-    def empty_md_tuple(W, rng):
-        # a metadata tuple whose entries are all empty: reached by filtering; copy() turns it into None
-        spec = {"obs": ["o"], "samp": ["s1", "s2"], "rows": [[7.0, 5.0]], "omd": None,
-                "smd": [{"a": "1"}, {}], "type": None}
-        W.construct(spec, "dense", None, None)
-        api_call(W, "filter", 0, {"axis": "sample", "mode": "ids", "ids": ["s2"], "inplace": True}, rng)
-        api_call(W, "transform", 0, {"axis": "sample", "fn": "x2", "inplace": True}, rng)
-    out.append(("all-empty-metadata-tuple", empty_md_tuple))
     return out
 
 
@@ -996,7 +1027,7 @@ def run(ctx):
             run_case(ctx, "fixed", 1, {"name": name}, impl[0], impl[1], tags=["fixed:" + name])
     # systematic
     quick = ctx.quick()
-    budget = 38 if quick else 540
+    budget = 33 if quick else 540
     routes = ["csr", "dense"] if quick else CTOR_ROUTES
     preps = PREPS
     n_templates = len(systematic_templates({"obs": ["a", "b", "c"], "samp": ["x", "y", "z"]}))
